@@ -171,6 +171,8 @@ def _plan(prop, T):
                 dict(flavour="dbg", suite="seg-random", args=dict(mon="query"), shards=16, budget=24000 * 12 * (8 if T else 1)),
                 dict(flavour="rel", suite="seg-random", args=dict(mon="query"), shards=16, budget=48000 * 12 * (8 if T else 1)),
                 dict(flavour="dbg", suite="sweep-line", args=dict(mon="none", smon="query", seg=1, coll="tree"), shards=8, budget=160 * (6 if T else 1)),
+                dict(flavour="rel", suite="seg-bulk", args=dict(mon="query", max_n=300000), shards=8),
+                dict(flavour="dbg", suite="seg-bulk", args=dict(mon="query", max_n=300000), shards=8),
                 miri("seg-random", 96, 8, T, mon="query", len=40),
                 miri("seg-pairs", 1, 8, T, mon="query", variant=1, stride=528),
             ],
@@ -191,6 +193,9 @@ def _plan(prop, T):
                 ord_random("rel", "lookup", colls, 4800, T),
                 ord_random("asan", "lookup", colls, 1600, T),
                 dict(flavour="rel", suite="big", args=dict(max_n=4000000 if T else 400000, probes="lookup", only_coll=tree), shards=16, timeout=3400 if T else 150),
+                # values whose Clone may panic (the entry move of a two-children removal clones the successor)
+                dict(flavour="dbg", suite="fault", args=dict(clonefault=1, only_kind="value_clone", colls=("MapTree" if is_map else "SetTree")), shards=8, budget=2800 * 8 * (8 if T else 1), seed_offset=51),
+                dict(flavour="dbg", suite="ord-closure", args=dict(mon="lookup", fault=1, clonefault=1, only_kind="value_clone", sets=(("maptree:8:8,maptree:7:0,maptree:9:1,maptree:6:9" if is_map else "settree:8:8,settree:7:0,settree:9:1,settree:6:9") if T else ("maptree:7:8,maptree:6:0,maptree:8:1,maptree:5:9" if is_map else "settree:7:8,settree:6:0,settree:8:1,settree:5:9"))), shards=4, timeout=3000 if T else 120),
                 miri("ord-random", 64, 8, T, mon="lookup", coll=colls, **MIRI_ORD),
             ],
             rule="evaluation = one get_value / is_empty compared with a BTreeMap reference (full sweep over the key universe after every delete in small universes; stored keys and neighbours in large ones), values carry unique ids and heap payloads; distinct non-trivial = distinct (reference key set, operation) + closed canonical shapes with >= 2 entries",
@@ -206,6 +211,8 @@ def _plan(prop, T):
                 ord_random("rel", "handle", "maptree+settree", 4800, T),
                 ord_random("asan", "handle", "maptree+settree", 1600, T),
                 dict(flavour="rel", suite="big", args=dict(max_n=4000000 if T else 400000, probes="handle"), shards=16, timeout=3400 if T else 150),
+                dict(flavour="dbg", suite="fault", args=dict(clonefault=1, only_kind="value_clone", colls="MapTree,SetTree"), shards=8, budget=2800 * 8 * (8 if T else 1), seed_offset=52),
+                dict(flavour="dbg", suite="ord-closure", args=dict(mon="handle", fault=1, clonefault=1, only_kind="value_clone", sets=("maptree:8:8,settree:8:0,maptree:7:1,settree:7:9" if T else "maptree:7:8,settree:7:0,maptree:6:1,settree:6:9")), shards=4, timeout=3000 if T else 120),
                 miri("ord-random", 64, 8, T, mon="handle", coll="maptree+settree", **MIRI_ORD),
             ],
             rule="evaluation = one first_index_less / first_index_less_by (3 monotone comparators) whose handle is dereferenced and compared with the reference predecessor, or one write / delete through such a handle followed by a lookup sweep; distinct non-trivial = distinct (reference key set, operation, probe) + closed canonical shapes",
@@ -245,6 +252,8 @@ def _plan(prop, T):
         jobs += [
             dict(flavour="rel", suite="export-size", args=dict(max_n=300000, nojudge=1), shards=8, mem_limit=8 * GB),
             dict(flavour="rel", suite="big", args=dict(max_n=400000, nojudge=1), shards=8, timeout=3400 if T else 150),
+            dict(flavour="dbg", suite="seg-bulk", args=dict(mon="none", max_n=300000, nojudge=1), shards=8),
+            dict(flavour="asan", suite="seg-bulk", args=dict(mon="none", max_n=140000, nojudge=1), shards=8),
             dict(flavour="rel", suite="big", args=dict(max_n=400000, probes="clear", nojudge=1), shards=8, timeout=3400 if T else 150),
             dict(flavour="rel", suite="big", args=dict(max_n=400000, probes="kquery", nojudge=1), shards=4, timeout=3400 if T else 150),
             dict(flavour="rel", suite="big", args=dict(max_n=400000, probes="handle", nojudge=1), shards=4, timeout=3400 if T else 150),
@@ -338,6 +347,7 @@ def _plan(prop, T):
                 dict(flavour="dbg", suite="seg-pairs", args=dict(mon="query,tiling,layout", variant=0), shards=16),
                 dict(flavour="rel", suite="seg-pairs", args=dict(mon="query,tiling,layout", variant=0), shards=16),
                 dict(flavour="dbg", suite="seg-random", args=dict(mon="tiling,layout"), shards=8, budget=8000 * 12 * (8 if T else 1)),
+                dict(flavour="rel", suite="seg-bulk", args=dict(mon="query,tiling,layout", max_n=300000), shards=8),
                 miri("seg-pairs", 1, 8, T, mon="query,tiling,layout", variant=0, stride=176),
             ],
             rule="evaluation = one (insert range, query range) pair on a tree over [0,31]: the value must be yielded exactly once iff the ranges overlap; and per insert the hooked stored places must equal the independent canonical tiling of [a,b] (exact cover, <= 8 copies); distinct non-trivial = distinct ordered pairs + distinct insert ranges",
@@ -354,6 +364,8 @@ def _plan(prop, T):
                 dict(flavour="rel", suite="seg-pairs", args=dict(mon="purge", variant=1), shards=16),
                 dict(flavour="dbg", suite="seg-random", args=dict(mon="purge", len=3000), shards=8, budget=160 * 6 * (8 if T else 1), seed_offset=21),
                 dict(flavour="dbg", suite="sweep-line", args=dict(mon="none", smon="purge", seg=1, coll="tree"), shards=8, budget=160),
+                dict(flavour="rel", suite="seg-bulk", args=dict(mon="purge", max_n=300000), shards=8),
+                dict(flavour="dbg", suite="seg-bulk", args=dict(mon="purge", max_n=300000), shards=8),
             ],
             rule="evaluation = one hooked dump after a fully consumed query: after a whole-domain query at t no stored copy has expiration < t and the copy count equals the copies of unexpired values; after a partial query no expired copy remains in any scanned list; after every operation no unexpired value has lost a copy; distinct non-trivial = distinct (stored bucket ranges, query) cases",
             require={"purge_checked_after_whole_domain_query": 50000, "purge_checked_after_partial_domain_query": 50000, "query_over_expired_value": 50000},
